@@ -31,7 +31,9 @@
     [len] (not needed), [reorder] with requests enabled, the tape setter,
     [BDD(...)] and the shutdown.
 
-    Node limit ([max_nodes], [RuntimeError] of a full table).  Part A and B2
+    Node limit ([max_nodes], [RuntimeError] of a full table; set through the
+    wrapper by [ASetMaxNodes n], [bdd._bdd.max_nodes = n], an operation of
+    [a_allowed] and of [a_allowedD] with any value).  Part A and B2
     are safety statements and cover that outcome like any other failure
     (a reordering that a full table stops in the middle keeps the held nodes,
     [Sift9.reorder_pub_keeps_held]; in the comparisons [u <= v], [u < v] the
@@ -297,7 +299,7 @@ Theorem C08b_allowedD_unfold o :
   | ADeclare _ | AVar _ | ATrue | AFalse | AApply _ _ _ _ | AIte _ _ _ | ALet _ _
   | AQuantify _ _ _ | ACube _ | ASupport _ | AFApply _ _ _ | AEq _ _ | ANe _ _
   | AChild _ _ | ASucc _ | ALevel _ | AVarOf _ | ARef _ | ANegated _ | AInt _
-  | ADrop _ | AGc | AConfigure _ | ASetLastLen _ | ASetTrig _ => true
+  | ADrop _ | AGc | AConfigure _ | ASetLastLen _ | ASetTrig _ | ASetMaxNodes _ => true
   | _ => false
   end.
 Proof. exact eq_refl. Qed.
